@@ -49,11 +49,12 @@ Dev == /\ l <= Len(Rec) /\ Rec[l].ev = "dev"
 (* whatever was cut short, the error/event queue keeps its order: what is left of the old queue (some oldest
    items read or everything cleared), then at most the operation-complete events of the units that ran, then
    the -225 of this failure -- an item that could not be sent is never put back behind younger ones *)
-RECURSIVE PushAll(_, _, _)
-PushAll(q, cap, es) == IF es = <<>> THEN q ELSE PushAll(PushPost(q, cap, Head(es)), cap, Tail(es))
-CapQueueOk(pre, post, cap) ==
-    \E k \in 0..Len(pre) : \E j \in 0..3 :
-        post = PushAll(SubSeq(pre, k + 1, Len(pre)), cap, [i \in 1..j |-> Err(-800, 0)] \o <<Err(-225, 0)>>)
+Suffixes(q) == {SubSeq(q, k + 1, Len(q)) : k \in 0..Len(q)}                 \* some oldest items read (or all cleared)
+RECURSIVE ReachQ(_, _, _)
+ReachQ(Q, cap, j) ==                                                          \* ... interleaved with at most j -800 events
+    LET S == UNION {Suffixes(q) : q \in Q} IN
+    IF j = 0 THEN S ELSE S \cup ReachQ({PushPost(q, cap, Err(-800, 0)) : q \in S}, cap, j - 1)
+CapQueueOk(pre, post, cap) == \E q \in ReachQ({pre}, cap, 3) : post = PushPost(q, cap, Err(-225, 0))
 
 Cap == /\ l <= Len(Rec) /\ Rec[l].ev = "cap"
        /\ LET ev == Rec[l]
